@@ -12,28 +12,39 @@ import collections
 
 
 class Decider:
-    """Source of nondeterministic bits.  ``replay``: list of recorded bits
-    (native re-execution)."""
+    """Source of nondeterministic bits backed by a choice vector.
 
-    def __init__(self, budget, replay=None):
+    ``replay`` is the vector (list of 0/1); bits beyond its length, or
+    beyond ``budget`` sequential draws, take the default.  ``reserved``
+    leading positions are addressed directly with ``bit_at`` (e.g. one bit
+    per candidate class), sequential draws with ``bit`` use the positions
+    after them.  ``read`` records every position consulted: two vectors that
+    agree on these positions lead to the same run."""
+
+    def __init__(self, budget, replay=None, reserved=0):
         self.budget = budget
-        self.replay = replay
+        self.replay = list(replay) if replay is not None else []
+        self.reserved = reserved
+        self.seq = 0
         self.log = []
-        self.pin = ()          # forced values of the first bits (partition)
+        self.read = set()
+        self.quiet = False      # True: sequential draws return the default
+
+    def _get(self, i, default):
+        self.read.add(i)
+        if i < len(self.replay):
+            return bool(self.replay[i])
+        return default
+
+    def bit_at(self, k, default=False):
+        assert k < self.reserved
+        return self._get(k, default)
 
     def bit(self, default=False):
-        if len(self.log) >= self.budget:
+        if self.quiet or self.seq >= self.budget:
             return default
-        if self.replay is not None:
-            i = len(self.log)
-            v = bool(self.replay[i]) if i < len(self.replay) else default
-        elif len(self.log) < len(self.pin):
-            v = bool(self.pin[len(self.log)])
-        else:
-            from crosshair.tracers import ResumedTracing
-            from vlib.engine import fresh
-            with ResumedTracing():
-                v = bool(fresh(bool, 'd'))
+        v = self._get(self.reserved + self.seq, default)
+        self.seq += 1
         self.log.append(v)
         return v
 
@@ -140,9 +151,7 @@ class HashClassOracle(Oracle):
         if toks not in self.memo:
             import zlib
             k = zlib.crc32((str(self.salt) + toks).encode()) % self.nbits
-            if k not in self.cls:
-                self.cls[k] = self.d.bit()
-            self.memo[toks] = self.cls[k]
+            self.memo[toks] = self.d.bit_at(k)
         return self.memo[toks]
 
 
